@@ -16,13 +16,15 @@ WORKLOADS = ["h_put", "h_putc", "h_put16", "h_linked", "h_linkedc", "h_update", 
              "v_write", "v_update", "v_read", "sd_write", "sd_chunk", "sd_update", "sd_read", "sd_cread",
              "gr_write", "gr_read", "an_write", "an_read",
              "sd_dims", "sd_inq", "sd_cinq", "h_special", "h_inq", "v_attr", "v_inq", "v_inq1", "gr_more", "gr_inq",
-             "gr_inq1", "sd_scalar", "sd_sread", "nc_write", "nc_update", "nc_read", "h_append", "v_append", "sd_append"]
+             "gr_inq1", "sd_scalar", "sd_sread", "nc_write", "nc_update", "nc_read", "h_append", "v_append", "sd_append",
+             "sd_wrinq", "gr_wrinq", "v_wrinq", "h_two", "sd_two", "v_two"]
 # workloads that write: repeated with DD caching switched off (variant bit 2: every descriptor update and every new DD
 # block is written through at once -- code the default configuration never runs) and, sampled, with a program that
 # ignores failures and goes on issuing calls (variant bit 4)
 WRITE_WL = ["h_put", "h_putc", "h_put16", "h_linked", "h_linkedc", "h_update", "h_updatec", "v_write", "v_update",
             "sd_write", "sd_chunk", "sd_update", "gr_write", "an_write", "sd_dims", "h_special", "v_attr", "gr_more",
-            "sd_scalar", "nc_write", "nc_update", "h_append", "v_append", "sd_append"]
+            "sd_scalar", "nc_write", "nc_update", "h_append", "v_append", "sd_append",
+            "sd_wrinq", "gr_wrinq", "v_wrinq", "h_two", "sd_two", "v_two"]
 FN_SCEN = {"plain": ["Hclose", "HIsync", "Hsync", "HTPsync", "HIextend_file", "HP_write 7", "HPseek 10", "HPseekcur"],
            "nocache": ["Hclose", "HIsync", "HP_write 3", "HPseek 0"],
            "cache": ["Hclose", "HIsync", "Hsync", "HTPsync", "HIextend_file", "HP_write 1"],
@@ -38,14 +40,14 @@ FN_SCEN = {"plain": ["Hclose", "HIsync", "Hsync", "HTPsync", "HIextend_file", "H
            "ncfull2": ["HTInew_dd_block", "HTIupdate_dd 1"],
            "cfull2": ["HTInew_dd_block", "Hclose"]}
 
-RULE = ("39 workload programs (20 of the first round + dimension/special-element/inquiry workloads + rank-0 data sets, the netCDF-2 calls on an HDF file, append-only sessions; H elements incl. linked blocks, DD-block overflow, cache on/off, update and read of "
+RULE = ("45 workload programs (20 of the first round + dimension/special-element/inquiry workloads + rank-0 data sets, the netCDF-2 calls on an HDF file, append-only sessions, inquiry/read calls on objects written in the same session, two file ids on one file; H elements incl. linked blocks, DD-block overflow, cache on/off, update and read of "
         "existing files; Vdata/Vgroup write, update, read; SD write incl. unlimited, chunked, chunked+deflate, RLE, "
         "deflate, update, read; GR write incl. palette and deflate, read; AN write, read); for each, the fault-free run "
         "counts the stdio calls (fopen/fread/fwrite/fseek/ftell/fflush/fclose) and then EVERY index k is made to fail, "
         "once as a single fault and once sticky (k and all later calls), transfers of failing fread/fwrite = nothing "
         "(errno EIO); a PRNG-chosen (VERIF_SEED) third of the indices (thorough: all) is repeated with strict-prefix "
         "transfers (errno ENOSPC), and half of them (thorough: all, gaps 1,2,3,5,8,13,21) with a second independent single "
-        "fault at index k+gap. The 24 writing workloads are run a second time in full with DD caching switched off "
+        "fault at index k+gap. The 30 writing workloads are run a second time in full with DD caching switched off "
         "(Hcache(CACHE_ALL_FILES, FALSE): descriptor updates and new DD blocks written through), and for half of their "
         "indices (thorough: all) with a program that ignores failures and issues every remaining call. Each run is a child process under ASan/UBSan with a 3 s time limit (a hung job is a violation; a harness stops after 3 hung jobs); recorded: every "
         "API return value, exit status, final file bytes and a hash of all data read, compared with the fault-free "
@@ -180,14 +182,14 @@ def run(ctx):
                 jobs.append("%s %s %d %d" % (w, r.choice("st"), k, v0 | 1))
             # two independent single faults: the second one hits clean-up / retry code after the first
             for gap in ((1, 2, 3, 5, 8, 13, 21) if ctx.tier == "thorough" else (r.choice((1, 2, 3, 5, 8, 13, 21)),)):
-                if ctx.tier == "thorough" or r.random() < (0.5 if not v0 else 0.2):
+                if ctx.tier == "thorough" or r.random() < (0.3 if not v0 else 0.12):
                     jobs.append("%s s %d %d %d" % (w, k, v0, k + gap))
             # a program that ignores the failure and goes on (write workloads only: their calls need no results of
             # earlier calls other than ids, which the library must reject when they are invalid)
             if w in WRITE_WL:
                 if ctx.tier == "thorough":
                     jobs += ["%s %s %d %d" % (w, m, k, v0 | 4 | b) for m in "st" for b in (0, 1)]
-                elif r.random() < 0.5:
+                elif r.random() < 0.3:
                     jobs.append("%s %s %d %d" % (w, r.choice("st"), k, v0 | 4 | r.choice((0, 1))))
     out = run_jobs(ctx, exe, jobs, "main")
     ver = judge_lines(ctx, mod, out, "main")
